@@ -39,4 +39,44 @@ pub fn run(a: &Args, m: &mut Mon, _r: &mut Rng) {
     }
     sub!("C02", crate::c02::run);
     sub!("C12", crate::c12::run);
+    sub!("C13", crate::c13::run);
+    sub!("C14", crate::c14::run);
+    sub!("C15", crate::c15::run);
+    sub!("C17", crate::c17::run);
+    sub!("C18", crate::c18::run);
+    sub!("C19", crate::c19::run);
+    // the offline drivers: events are discarded (null sink), only panics are kept
+    macro_rules! subd {
+        ($name:expr, $f:path) => {{
+            let mut s = Mon::new($name);
+            let mut sink = crate::events::Sink::null();
+            let mut sa = Args { prop: $name.to_string(), ..clone_args(&sub_args) };
+            sa.scale = sub_args.scale;
+            $f(&sa, &mut s, &mut sink);
+            s.evaluations = s.evaluations.max(sink.n);
+            transfer(m, s, $name);
+        }};
+    }
+    subd!("C01", crate::c01::drive);
+    subd!("C04", crate::c04::drive_spline);
+    subd!("C06", crate::c04::drive_linear);
+    subd!("C07", crate::c07::drive07);
+    subd!("C08", crate::c07::drive08);
+    subd!("C09", crate::c09::drive09);
+    subd!("C10", crate::c09::drive10);
+    subd!("C11", crate::c11::drive);
+}
+
+fn clone_args(a: &Args) -> Args {
+    Args {
+        prop: a.prop.clone(),
+        tier: a.tier.clone(),
+        seed: a.seed,
+        shard: a.shard,
+        nshards: a.nshards,
+        out: String::new(),
+        hashes: String::new(),
+        scale: a.scale,
+        replay: String::new(),
+    }
 }
